@@ -274,9 +274,9 @@ Proof.
           [destruct v; try discriminate|];
           destruct (missing_params (c_params c) g); try reflexivity; discriminate.
       * destruct (eval g (c_expr c)) as [v| |]; try discriminate.
-        -- destruct v; try discriminate.
+        -- destruct v as [bv| | | | | | | |]; try discriminate.
            destruct (missing_params (c_params c) g); [|discriminate].
-           destruct b0; [reflexivity|discriminate].
+           destruct bv; [reflexivity|discriminate].
         -- destruct (missing_params (c_params c) g); discriminate.
     + intros [H|H]; [discriminate|].
       destruct H as (c & g & -> & En & Eco & Ec & Hall & Hev).
@@ -304,12 +304,16 @@ Lemma in_val_not_unk x y : in_val x y <> RUnk.
 Proof. unfold in_val. destruct y; try discriminate. destruct x; discriminate. Qed.
 Lemma idx_val_not_unk x y : idx_val x y <> RUnk.
 Proof.
-  unfold idx_val. destruct x; try discriminate. destruct y; try discriminate.
-  destruct (lookup s l); discriminate.
+  unfold idx_val. destruct x as [| | | | | |lm| |]; try discriminate.
+  destruct y as [|sk| | | | | | |]; try discriminate.
+  destruct (lookup sk lm); discriminate.
 Qed.
 
 Lemma to_b4_unk r : to_b4 r = B4U -> r = RUnk.
-Proof. destruct r as [v| |]; simpl; try discriminate; [|reflexivity]. destruct v; try discriminate. destruct b; discriminate. Qed.
+Proof.
+  destruct r as [v| |]; simpl; try discriminate; [|reflexivity].
+  destruct v as [bv| | | | | | | |]; try discriminate. destruct bv; discriminate.
+Qed.
 Lemma of_b4_unk b : of_b4 b = RUnk -> b = B4U.
 Proof. destruct b; simpl; try discriminate. reflexivity. Qed.
 Lemma and4_unk a b : and4 a b = B4U -> a = B4U \/ b = B4U.
@@ -359,18 +363,18 @@ Proof.
   - destruct Hin as [<-|[]]. destruct (lookup n ps) eqn:E; [|discriminate]. eapply lookup_in_keys; eauto.
   - destruct (type_of ps a) eqn:Ea; [|discriminate]. destruct (type_of ps b) eqn:Eb; [|discriminate].
     apply in_app_or in Hin. destruct Hin; eauto.
-  - destruct (type_of ps a) eqn:Ea; [|discriminate]. destruct (type_of ps b) eqn:Eb;
-      [|destruct e; discriminate].
+  - destruct (type_of ps a) as [ta|] eqn:Ea; [|discriminate]. destruct (type_of ps b) eqn:Eb;
+      [|destruct ta; discriminate].
     apply in_app_or in Hin. destruct Hin; eauto.
-  - destruct (type_of ps a) eqn:Ea; [|discriminate]. destruct (type_of ps b) eqn:Eb;
-      [|destruct e; discriminate].
+  - destruct (type_of ps a) as [ta|] eqn:Ea; [|discriminate]. destruct (type_of ps b) eqn:Eb;
+      [|destruct ta; discriminate].
     apply in_app_or in Hin. destruct Hin; eauto.
   - destruct (type_of ps a) eqn:Ea; [|discriminate]. eauto.
-  - destruct (type_of ps a) eqn:Ea; [|discriminate]. destruct (type_of ps b) eqn:Eb;
-      [|destruct e; discriminate].
+  - destruct (type_of ps a) as [ta|] eqn:Ea; [|discriminate]. destruct (type_of ps b) eqn:Eb;
+      [|destruct ta; discriminate].
     apply in_app_or in Hin. destruct Hin; eauto.
-  - destruct (type_of ps m) eqn:Em; [|discriminate]. destruct (type_of ps k) eqn:Ek;
-      [|destruct e; discriminate].
+  - destruct (type_of ps m) as [ta|] eqn:Em; [|discriminate]. destruct (type_of ps k) eqn:Ek;
+      [|destruct ta; discriminate].
     apply in_app_or in Hin. destruct Hin; eauto.
 Qed.
 
@@ -412,9 +416,9 @@ Proof.
       exists c, g. repeat split; try assumption; try reflexivity.
       pose proof (eval_total_when_present c g Eco Hall) as Hnu.
       destruct (eval g (c_expr c)) as [v| |]; try discriminate; [|congruence].
-      destruct v; try discriminate.
+      destruct v as [bv| | | | | | | |]; try discriminate.
       destruct (missing_params (c_params c) g); [|discriminate].
-      destruct b0; [discriminate|reflexivity].
+      destruct bv; [discriminate|reflexivity].
     + intros [_ H].
       destruct H as (c & g & -> & En & Eco & Ec & Hall & Hev).
       rewrite En. simpl. unfold evaluate. rewrite Eco. simpl. rewrite Ec, Hev.
@@ -422,3 +426,370 @@ Proof.
 Qed.
 
 End WithConv2.
+
+(* ========================================================================================== *)
+(* 4. Numbers: the converters against the exact value of what the context carried              *)
+
+(* the integer test / quotient on a fraction, as used by spec_int *)
+Lemma frac_equiv_int n1 d1 n2 d2 :
+  0 < d1 -> 0 < d2 -> n1 * d2 = n2 * d1 ->
+  (n1 mod d1 =? 0) = (n2 mod d2 =? 0) /\ (n1 mod d1 = 0 -> n1 / d1 = n2 / d2).
+Proof.
+  intros H1 H2 Heq.
+  assert (Hd : forall a da b db, 0 < da -> 0 < db -> a * db = b * da -> a mod da = 0 -> b mod db = 0 /\ a / da = b / db).
+  { intros a da b db Ha Hb He Hm.
+    apply Z.mod_divide in Hm; [|lia]. destruct Hm as [k Hk]. subst a.
+    assert (b = k * db) by nia. subst b.
+    split; [apply Z.mod_mul; lia|]. rewrite !Z.div_mul by lia. reflexivity. }
+  split.
+  - destruct (n1 mod d1 =? 0) eqn:E1; destruct (n2 mod d2 =? 0) eqn:E2; try reflexivity.
+    + apply Z.eqb_eq in E1. destruct (Hd _ _ _ _ H1 H2 Heq E1) as [H _]. apply Z.eqb_neq in E2. contradiction.
+    + apply Z.eqb_eq in E2. symmetry in Heq. destruct (Hd _ _ _ _ H2 H1 Heq E2) as [H _]. apply Z.eqb_neq in E1. contradiction.
+  - intro Hm. apply (Hd _ _ _ _ H1 H2 Heq Hm).
+Qed.
+
+Lemma pow2_pos k : 0 < 2 ^ k \/ (k < 0 /\ 2 ^ k = 0).
+Proof. destruct (Z.neg_nonneg_cases k) as [Hk|Hk]; [right; split; [lia|apply Z.pow_neg_r; lia] | left; apply Z.pow_pos_nonneg; lia]. Qed.
+
+Lemma pow_max_pos b k : 0 < b -> 0 < b ^ Z.max k 0.
+Proof. intro Hb. apply Z.pow_pos_nonneg; lia. Qed.
+
+(* is_int / int_val of m*2^e against the fraction dy_frac m e *)
+Lemma dy_frac_int m e :
+  let '(n, d) := dy_frac m e in
+  0 < d /\ is_int m e = (n mod d =? 0) /\ int_val m e = n / d.
+Proof.
+  unfold dy_frac, is_int, int_val. destruct (0 <=? e) eqn:E.
+  - apply Z.leb_le in E. rewrite (Z.max_l e 0) by lia. rewrite (Z.max_r (- e) 0) by lia.
+    simpl (2 ^ 0). rewrite Z.mod_1_r, Z.div_1_r. repeat split; try reflexivity; lia.
+  - apply Z.leb_gt in E. rewrite (Z.max_r e 0) by lia. rewrite (Z.max_l (- e) 0) by lia.
+    simpl (2 ^ 0). rewrite Z.mul_1_r. repeat split; try reflexivity. apply Z.pow_pos_nonneg; lia.
+Qed.
+
+(* when round_frac reports "exact", the result m * 2^e is the fraction n/d *)
+Lemma round_frac_exact prec n d m e :
+  0 < d -> round_frac prec n d = (m, e, true) ->
+  m * 2 ^ Z.max e 0 * d = n * 2 ^ Z.max (- e) 0.
+Proof.
+  intros Hd. unfold round_frac.
+  set (s := prec + 2 - (Z.log2 n - Z.log2 d)).
+  set (num := if 0 <=? s then n * 2 ^ s else n).
+  set (den := if 0 <=? s then d else d * 2 ^ (- s)).
+  set (q := num / den).
+  set (dd := Z.log2 q + 1 - prec).
+  assert (Hden : 0 < den).
+  { unfold den. destruct (0 <=? s) eqn:Es; [exact Hd|]. apply Z.leb_gt in Es.
+    apply Z.mul_pos_pos; [exact Hd|]. apply Z.pow_pos_nonneg; lia. }
+  assert (Hex : num mod den = 0 -> num = den * q).
+  { intro Hm. unfold q. apply Z.div_exact; [lia|exact Hm]. }
+  destruct (dd <=? 0) eqn:Edd.
+  - intro H. assert (Hm := f_equal (fun t => fst (fst t)) H). assert (He := f_equal (fun t => snd (fst t)) H).
+    assert (Hx := f_equal snd H). simpl in Hm, He, Hx. clear H. subst e. subst m.
+    apply negb_true_iff, negb_false_iff, Z.eqb_eq in Hx. apply Hex in Hx.
+    unfold num, den in Hx. destruct (0 <=? s) eqn:Es.
+    + apply Z.leb_le in Es. rewrite (Z.max_r (- s) 0) by lia. rewrite Z.opp_involutive.
+      rewrite (Z.max_l s 0) by lia. simpl (2 ^ 0). lia.
+    + apply Z.leb_gt in Es. rewrite (Z.max_l (- s) 0) by lia. rewrite Z.opp_involutive.
+      rewrite (Z.max_r s 0) by lia. simpl (2 ^ 0). lia.
+  - apply Z.leb_gt in Edd. intro H. assert (Hm := f_equal (fun t => fst (fst t)) H). assert (He := f_equal (fun t => snd (fst t)) H).
+    assert (Hx := f_equal snd H). simpl in Hm, He, Hx. clear H. subst e.
+    apply andb_true_iff in Hx. destruct Hx as [Hlo Hst].
+    apply Z.eqb_eq in Hlo. apply negb_true_iff, negb_false_iff, Z.eqb_eq in Hst. apply Hex in Hst.
+    assert (Hhalf : 0 < 2 ^ (dd - 1)) by (apply Z.pow_pos_nonneg; lia).
+    rewrite Hlo in Hm.
+    assert (Hup : (2 ^ (dd - 1) <? 0) || ((0 =? 2 ^ (dd - 1)) && (negb (num mod den =? 0) || Z.odd (q / 2 ^ dd))) = false).
+    { apply orb_false_iff. split; [apply Z.ltb_ge; lia|].
+      apply andb_false_iff. left. apply Z.eqb_neq. lia. }
+    rewrite Hup in Hm. clear Hup.
+    assert (Hq : q = 2 ^ dd * (q / 2 ^ dd)).
+    { pose proof (Z.div_mod q (2 ^ dd)) as Hdm. rewrite Hlo in Hdm.
+      rewrite Z.add_0_r in Hdm. apply Hdm. apply Z.pow_nonzero; lia. }
+    set (hi := q / 2 ^ dd) in *. subst m. clear Hlo.
+    unfold num, den in Hst. destruct (0 <=? s) eqn:Es.
+    + apply Z.leb_le in Es. destruct (Z.le_gt_cases s dd) as [Hsd|Hsd].
+      * rewrite (Z.max_l (dd - s) 0) by lia. rewrite (Z.max_r (- (dd - s)) 0) by lia. simpl (2 ^ 0).
+        assert (Hp : 2 ^ dd = 2 ^ (dd - s) * 2 ^ s) by (rewrite <- Z.pow_add_r by lia; f_equal; lia).
+        rewrite Hq, Hp in Hst.
+        assert (H2 : 0 < 2 ^ s) by (apply Z.pow_pos_nonneg; lia).
+        apply (Z.mul_reg_r _ _ (2 ^ s)); [lia|]. lia.
+      * rewrite (Z.max_r (dd - s) 0) by lia. rewrite (Z.max_l (- (dd - s)) 0) by lia. simpl (2 ^ 0).
+        assert (Hp : 2 ^ s = 2 ^ (- (dd - s)) * 2 ^ dd) by (rewrite <- Z.pow_add_r by lia; f_equal; lia).
+        rewrite Hq, Hp in Hst.
+        assert (H2 : 0 < 2 ^ dd) by (apply Z.pow_pos_nonneg; lia).
+        apply (Z.mul_reg_r _ _ (2 ^ dd)); [lia|]. lia.
+    + apply Z.leb_gt in Es.
+      rewrite (Z.max_l (dd - s) 0) by lia. rewrite (Z.max_r (- (dd - s)) 0) by lia. simpl (2 ^ 0).
+      assert (Hp : 2 ^ (dd - s) = 2 ^ dd * 2 ^ (- s)) by (rewrite <- Z.pow_add_r by lia; f_equal; lia).
+      rewrite Hp. rewrite Z.mul_1_r. rewrite Hst. rewrite Hq. ring.
+Qed.
+
+(* ------------------------------------------------------------------------------------------ *)
+(* the converters against the exact value                                                      *)
+
+Definition spec_frac (lo hi : Z) (mk : Z -> cval) (n d : Z) : cres :=
+  if n mod d =? 0 then
+    let z := n / d in if (lo <=? z) && (z <=? hi) then COk (mk z) else CErr
+  else CErr.
+
+Lemma spec_int_frac lo hi mk v :
+  spec_int lo hi mk v =
+  match exact_frac v with SFrac n d => spec_frac lo hi mk n d | SOut => COut | _ => CErr end.
+Proof. reflexivity. Qed.
+
+Lemma spec_frac_equiv lo hi mk n1 d1 n2 d2 :
+  0 < d1 -> 0 < d2 -> n1 * d2 = n2 * d1 -> spec_frac lo hi mk n1 d1 = spec_frac lo hi mk n2 d2.
+Proof.
+  intros H1 H2 Heq. unfold spec_frac.
+  destruct (frac_equiv_int _ _ _ _ H1 H2 Heq) as [Hb Hq]. rewrite <- Hb.
+  destruct (n1 mod d1 =? 0) eqn:E; [|reflexivity].
+  apply Z.eqb_eq in E. rewrite (Hq E). reflexivity.
+Qed.
+
+Lemma clamp64_in_range z : out_of_int64 z = false -> clamp64 z = z /\ (min_int64 <=? z) && (z <=? max_int64) = true.
+Proof.
+  unfold out_of_int64, clamp64. intro H. apply orb_false_iff in H. destruct H as [H1 H2].
+  rewrite H1, H2. split; [reflexivity|]. apply Z.ltb_ge in H1. apply Z.ltb_ge in H2.
+  apply andb_true_iff. split; apply Z.leb_le; assumption.
+Qed.
+
+Lemma conv_int_bigf_spec m e :
+  clamped_bigf (BFin m e) = false ->
+  conv_int_bigf (BFin m e) = spec_frac min_int64 max_int64 VInt (fst (dy_frac m e)) (snd (dy_frac m e)).
+Proof.
+  intro Hc. pose proof (dy_frac_int m e) as H. destruct (dy_frac m e) as [n d]. simpl fst. simpl snd.
+  destruct H as (Hd & Hi & Hv). unfold conv_int_bigf, int_of_bigf, spec_frac.
+  simpl in Hc. rewrite <- Hi, <- Hv. destruct (is_int m e); [|reflexivity].
+  simpl in Hc. destruct (clamp64_in_range _ Hc) as [-> ->]. reflexivity.
+Qed.
+
+Lemma conv_uint_bigf_spec m e :
+  clamped_bigf (BFin m e) = false ->
+  conv_uint_bigf (BFin m e) = spec_frac 0 max_uint64 VUint (fst (dy_frac m e)) (snd (dy_frac m e)).
+Proof.
+  intro Hc. pose proof (dy_frac_int m e) as H. destruct (dy_frac m e) as [n d]. simpl fst. simpl snd.
+  destruct H as (Hd & Hi & Hv). unfold conv_uint_bigf, int_of_bigf, spec_frac.
+  simpl in Hc. rewrite <- Hi, <- Hv. destruct (is_int m e); [|reflexivity].
+  simpl in Hc. destruct (clamp64_in_range _ Hc) as [-> Hr].
+  apply andb_true_iff in Hr. destruct Hr as [_ Hhi]. apply Z.leb_le in Hhi.
+  destruct (int_val m e <? 0) eqn:E.
+  - apply Z.ltb_lt in E. replace (0 <=? int_val m e) with false by (symmetry; apply Z.leb_gt; lia). reflexivity.
+  - apply Z.ltb_ge in E. replace (0 <=? int_val m e) with true by (symmetry; apply Z.leb_le; lia).
+    replace (int_val m e <=? max_uint64) with true; [reflexivity|].
+    symmetry. apply Z.leb_le. unfold max_int64 in Hhi. unfold max_uint64. lia.
+Qed.
+
+Lemma exact_parts_den_pos mant e2 e5 : 0 < snd (exact_parts mant e2 e5).
+Proof. unfold exact_parts. simpl. apply Z.mul_pos_pos; apply Z.pow_pos_nonneg; lia. Qed.
+
+Lemma dy_frac_den_pos m e : 0 < snd (dy_frac m e).
+Proof. unfold dy_frac. simpl. apply Z.pow_pos_nonneg; lia. Qed.
+
+(* a string whose 64-bit parse is exact: the big.Float equals the exact value of the string *)
+Lemma parse_exact_value s :
+  num_inexact (JStr s) = false ->
+  match parse_bigf s, scan_exact s with
+  | PErr, SErr => True
+  | POut, SOut => True
+  | POk (BInf n) _, SInf n' => n = n'
+  | POk (BFin m e) _, SFrac n d =>
+      0 < d /\ fst (dy_frac m e) * d = n * snd (dy_frac m e)
+  | _, _ => False
+  end.
+Proof.
+  unfold num_inexact, parse_bigf, scan_exact. destruct (scan_number s) as [| |n|neg mant e2 e5]; auto.
+  destruct (mant =? 0) eqn:Em.
+  - intros _. apply Z.eqb_eq in Em. subst mant.
+    pose proof (exact_parts_den_pos 0 e2 e5) as Hd. unfold exact_parts in *. simpl in *.
+    split; [exact Hd|]. destruct neg; reflexivity.
+  - unfold coded_parts. destruct (Z.abs e5 <=? 27).
+    + pose proof (exact_parts_den_pos mant e2 e5) as Hd.
+      destruct (exact_parts mant e2 e5) as [n d]. simpl in Hd.
+      destruct (round_frac 64 n d) as [[m e] x] eqn:Er. rewrite andb_true_r. simpl.
+      intro Hx. apply negb_false_iff in Hx. subst x.
+      pose proof (round_frac_exact _ _ _ _ _ Hd Er) as Hv.
+      split; [exact Hd|]. unfold dy_frac. simpl. destruct neg; lia.
+    + destruct (pow5 (Z.abs e5)) as [pm pe]. destruct (0 <? e5).
+      * destruct (round_frac 64 _ _) as [[m e] x]. rewrite andb_false_r. simpl. discriminate.
+      * destruct (round_frac 64 _ _) as [[m e] x]. rewrite andb_false_r. simpl. discriminate.
+Qed.
+
+Lemma conv_numeric_spec (k : bigf -> cres) lo hi mk v :
+  (forall m e, clamped_bigf (BFin m e) = false ->
+               k (BFin m e) = spec_frac lo hi mk (fst (dy_frac m e)) (snd (dy_frac m e))) ->
+  (forall n, k (BInf n) = CErr) ->
+  num_clamped v = false -> num_inexact v = false ->
+  conv_numeric k v = match v with JNum FNaN => CPanic | _ => spec_int lo hi mk v end.
+Proof.
+  intros Hk Hinf Hc Hx. destruct v as [|b|f|s|l|l]; try reflexivity.
+  - destruct f as [|n|m e]; [reflexivity|simpl; apply Hinf|].
+    simpl. rewrite spec_int_frac. simpl. simpl in Hc. rewrite (Hk _ _ Hc). reflexivity.
+  - rewrite spec_int_frac. simpl conv_numeric. simpl exact_frac.
+    pose proof (parse_exact_value s Hx) as H. simpl in Hc.
+    destruct (parse_bigf s) as [| |b x].
+    + destruct (scan_exact s); try contradiction. reflexivity.
+    + destruct (scan_exact s); try contradiction. reflexivity.
+    + destruct b as [nb|m e]; destruct (scan_exact s) as [| |n'|n d]; try contradiction.
+      * apply Hinf.
+      * destruct H as [Hd Hv].
+        rewrite (Hk _ _ Hc). apply spec_frac_equiv; [apply dy_frac_den_pos|exact Hd|exact Hv].
+Qed.
+
+Lemma existsb_false_in {A} (f : A -> bool) l x : existsb f l = false -> In x l -> f x = false.
+Proof.
+  intros H Hin. destruct (f x) eqn:E; [|reflexivity].
+  assert (existsb f l = true) by (apply existsb_exists; exists x; auto). congruence.
+Qed.
+
+Lemma conv_all_ext f g l : (forall x, In x l -> f x = g x) -> conv_all f l = conv_all g l.
+Proof.
+  induction l as [|x r IH]; intro H; simpl; [reflexivity|].
+  rewrite (H x) by (left; reflexivity). rewrite IH by (intros y Hy; apply H; right; exact Hy). reflexivity.
+Qed.
+
+Lemma conv_all_kv_ext f g l : (forall kv, In kv l -> f (snd kv) = g (snd kv)) -> conv_all_kv f l = conv_all_kv g l.
+Proof.
+  induction l as [|[k x] r IH]; intro H; simpl; [reflexivity|].
+  pose proof (H (k, x) (or_introl eq_refl)) as Hx. simpl in Hx. rewrite Hx.
+  rewrite IH by (intros y Hy; apply H; right; exact Hy). reflexivity.
+Qed.
+
+(* Values are converted to the declared type exactly, or the conversion fails -- PARTIAL: under
+   the hypotheses that no big.Float.Int64() result was clamped and that every decimal string
+   given for an int/uint is exactly representable in the 64 bits big.ParseFloat keeps.
+   Without them the statement is false: see convert_int_clamp_refuted / convert_fraction_rounded_refuted. *)
+Theorem convert_exact_or_error_partial ext t : forall v,
+  conv_flag num_clamped t v = false -> conv_flag num_inexact t v = false ->
+  convert ext t v = spec_convert ext t v.
+Proof.
+  induction t as [| | | | |t IH|t IH| | | | |]; intros v Hc Hx; try reflexivity.
+  - simpl in *. apply conv_numeric_spec; auto using conv_int_bigf_spec.
+  - simpl in *. apply conv_numeric_spec; auto using conv_uint_bigf_spec.
+  - simpl in *. destruct v as [|b|f|s|l|l]; try reflexivity.
+    apply conv_all_ext. intros x Hin. apply IH; eapply existsb_false_in; eauto.
+  - simpl in *. destruct v as [|b|f|s|l|l]; try reflexivity.
+    apply conv_all_kv_ext. intros kv Hin. apply IH.
+    + apply (existsb_false_in _ _ _ Hc Hin).
+    + apply (existsb_false_in _ _ _ Hx Hin).
+Qed.
+
+(* in particular: an accepted int is the exact value of what the context carried *)
+Corollary convert_int_exact_partial ext v z n d :
+  num_clamped v = false -> num_inexact v = false ->
+  convert ext TInt v = COk (VInt z) -> exact_frac v = SFrac n d ->
+  n = z * d /\ min_int64 <= z <= max_int64.
+Proof.
+  intros Hc Hx Hcv Hf.
+  rewrite (convert_exact_or_error_partial ext TInt v Hc Hx) in Hcv. simpl in Hcv.
+  assert (Hs : spec_int min_int64 max_int64 VInt v = COk (VInt z)).
+  { destruct v as [|b|f|s|l|l]; try exact Hcv. destruct f; [discriminate|exact Hcv|exact Hcv]. }
+  rewrite spec_int_frac, Hf in Hs. unfold spec_frac in Hs.
+  destruct (n mod d =? 0) eqn:Em; [|discriminate]. apply Z.eqb_eq in Em.
+  destruct ((min_int64 <=? n / d) && (n / d <=? max_int64)) eqn:Er; [|discriminate].
+  inversion Hs; subst z. apply andb_true_iff in Er. destruct Er as [E1 E2].
+  apply Z.leb_le in E1. apply Z.leb_le in E2. split; [|lia].
+  destruct (Z.eq_dec d 0) as [->|Hd].
+  - rewrite Zmod_0_r in Em. lia.
+  - pose proof (Z.div_mod n d Hd). lia.
+Qed.
+
+(* ------------------------------------------------------------------------------------------ *)
+(* the whole evaluation against the property's reading of it                                   *)
+
+Lemma cast_params_ext conv1 conv2 ps m :
+  (forall n t v, In (n, t) ps -> lookup n m = Some v -> conv1 t (as_interface v) = conv2 t (as_interface v)) ->
+  cast_params conv1 ps m = cast_params conv2 ps m.
+Proof.
+  induction ps as [|[n0 t0] ps IH]; intro H; simpl; [reflexivity|].
+  rewrite IH by (intros n t v Hin; apply H; right; exact Hin).
+  destruct (lookup n0 m) as [v|] eqn:El; [|reflexivity].
+  rewrite (H n0 t0 v (or_introl eq_refl) El). reflexivity.
+Qed.
+
+Lemma evaluate_ext conv1 conv2 c req stored :
+  (forall n t v, In (n, t) (c_params c) -> lookup n (merge req stored) = Some v ->
+                 conv1 t (as_interface v) = conv2 t (as_interface v)) ->
+  evaluate conv1 c req stored = evaluate conv2 c req stored.
+Proof.
+  intro H. unfold evaluate, cast. rewrite (cast_params_ext conv1 conv2 _ _ H). reflexivity.
+Qed.
+
+(* The code computes what the property describes (exact conversion or failure, stored context
+   first, every declared parameter bound, met <=> true) -- PARTIAL: whenever no conversion of
+   this evaluation clamped an out-of-range number or took an inexactly parsed decimal string. *)
+Theorem evaluate_matches_spec_partial ext tname stored ec req :
+  (forall c, ec = Some c -> eval_flag num_clamped c req stored = false /\
+                            eval_flag num_inexact c req stored = false) ->
+  evaluate_tuple_condition (convert ext) tname stored ec req =
+  evaluate_tuple_condition (spec_convert ext) tname stored ec req.
+Proof.
+  intro Hf. unfold evaluate_tuple_condition. destruct tname as [|b0 tn]; [reflexivity|].
+  destruct ec as [c|]; [|reflexivity]. destruct (Hf c eq_refl) as [Hc Hx].
+  rewrite (evaluate_ext (convert ext) (spec_convert ext) c req stored); [reflexivity|].
+  intros n t v Hin Hl. unfold eval_flag in Hc, Hx. revert Hc Hx Hl.
+  destruct (merge req stored) as [|kv m']; [discriminate|]. intros Hc Hx Hl.
+  pose proof (existsb_false_in _ _ _ Hc Hin) as Hc1. pose proof (existsb_false_in _ _ _ Hx Hin) as Hx1.
+  cbv beta in Hc1, Hx1. simpl fst in Hc1, Hx1. simpl snd in Hc1, Hx1. rewrite Hl in Hc1, Hx1.
+  apply convert_exact_or_error_partial; assumption.
+Qed.
+
+(* ------------------------------------------------------------------------------------------ *)
+(* the refutations of the full-strength statements (findings)                                  *)
+
+Definition no_ext : N -> bytes -> bool := fun _ _ => false.
+
+(* F8: 1e19 = 19073486328125 * 2^19 given for an int parameter becomes MaxInt64 *)
+Theorem convert_int_clamp_refuted :
+  exists v z, convert no_ext TInt v = COk (VInt z) /\ spec_convert no_ext TInt v = CErr /\
+              num_clamped v = true.
+Proof. exists (JNum (FFin 19073486328125 19)), max_int64. vm_compute. auto. Qed.
+
+(* ... and an in-range uint64 above MaxInt64 is replaced by MaxInt64 *)
+Theorem convert_uint_clamp_refuted :
+  exists v, convert no_ext TUint v = COk (VUint max_int64) /\
+            spec_convert no_ext TUint v = COk (VUint max_uint64).
+Proof.
+  (* "18446744073709551615" *)
+  exists (JStr [49;56;52;52;54;55;52;52;48;55;51;55;48;57;53;53;49;54;49;53]%N). vm_compute. auto.
+Qed.
+
+(* "1.00000000000000000000000001" given for an int parameter becomes 1 *)
+Definition s_one_and_a_bit : bytes :=
+  [49;46;48;48;48;48;48;48;48;48;48;48;48;48;48;48;48;48;48;48;48;48;48;48;48;48;48;49]%N.
+Theorem convert_fraction_rounded_refuted :
+  convert no_ext TInt (JStr s_one_and_a_bit) = COk (VInt 1) /\
+  spec_convert no_ext TInt (JStr s_one_and_a_bit) = CErr /\
+  num_clamped (JStr s_one_and_a_bit) = false /\ num_rounded (JStr s_one_and_a_bit) = true.
+Proof. vm_compute. auto. Qed.
+
+(* the condition  ci(y: int) { y == 9223372036854775807 }  is met by the request context y = 1e19 *)
+Definition k_y : bytes := [121]%N.
+Definition k_ci : bytes := [99; 105]%N.
+Definition cond_ci : condition :=
+  {| c_name := k_ci; c_params := [(k_y, TInt)]; c_expr := ECmp OEq (EParam k_y) (EInt max_int64) |}.
+Theorem met_iff_exact_true_refuted :
+  evaluate_tuple_condition (convert no_ext) k_ci [] (Some cond_ci) [(k_y, JNum (FFin 19073486328125 19))] = TMet /\
+  evaluate_tuple_condition (spec_convert no_ext) k_ci [] (Some cond_ci) [(k_y, JNum (FFin 19073486328125 19))] = TErr EType.
+Proof. vm_compute. auto. Qed.
+
+(* a bound declared parameter whose conversion fails makes the evaluation fail *)
+Theorem conversion_failure_is_failure conv tname stored c req n t v :
+  tname <> [] ->
+  In (n, t) (c_params c) -> lookup n (merge req stored) = Some v -> conv t (as_interface v) = CErr ->
+  is_failure (evaluate_tuple_condition conv tname stored (Some c) req) = true.
+Proof.
+  intros Hname Hin Hl Hc. unfold evaluate_tuple_condition.
+  destruct tname as [|b0 tn]; [congruence|].
+  destruct (negb (beqb (b0 :: tn) (c_name c))); [reflexivity|].
+  unfold evaluate. destruct (negb (compiles c)); [reflexivity|].
+  destruct (cast conv (c_params c) (merge req stored)) as [g| | |] eqn:Ec; try reflexivity.
+  exfalso. unfold cast in Ec. destruct (merge req stored) as [|kv m'] eqn:Em; [discriminate|].
+  destruct (c_params c) as [|p ps'] eqn:Ep; [discriminate|].
+  eapply (cast_params_conv_error conv (p :: ps') (kv :: m')); eauto.
+Qed.
+
+(* no evaluation panics: structpb's AsInterface never hands a NaN to big.NewFloat *)
+Lemma as_interface_no_nan_top v : forall f, as_interface v = JNum f -> f <> FNaN.
+Proof.
+  intros f H. destruct v as [|b|f0|s|l|l]; simpl in H; try discriminate.
+  destruct f0 as [|n|m e]; [discriminate|destruct n; discriminate|]. inversion H. discriminate.
+Qed.
